@@ -18,4 +18,5 @@ def run(repo, res, tier):
     langrules.rule_s1(repo, res, an, "omni")
     langrules.rule_o1(repo, res, an)
     langrules.rule_o2(repo, res, an)
+    langrules.rule_lex1(repo, res, an, kinds=("number as str() writes it", "date/time"))
     timerules.rule_r(repo, res)
